@@ -71,15 +71,25 @@ def run(P):
                     return True
             return False
 
+        def shared_envelope(out):
+            for i, e in enumerate(out):
+                if e["e"] == "q" and len(e.get("spaces", [])) >= 2 and e["spaces"][0] > 0:
+                    sp = list(e["spaces"])
+                    sp[1] = sp[0]
+                    out[i] = dict(e, spaces=sp)
+                    return True
+            return False
+
         ok = True
         ok &= variant("corrupt_load", corrupt_load, {"C03", "C01"})
         ok &= variant("drop_dec", drop_dec, {"HARNESS", "C02"})
         ok &= variant("early_destroy", early_destroy, {"C01"})
         ok &= variant("drop_write", drop_write, {"C04", "C03", "C05", "C06"})
         ok &= variant("swap_ret", swap_ret, {"C04"})
+        ok &= variant("shared_envelope", shared_envelope, {"C01", "C03"})
         if not ok:
             return 2
-        print("selftest: ok (%d executions accepted, 5 corrupted traces rejected)" % res["execs"])
+        print("selftest: ok (%d executions accepted, 6 corrupted traces rejected)" % res["execs"])
         return 0
     finally:
         shutil.rmtree(wd, ignore_errors=True)
